@@ -1,26 +1,41 @@
 #!/usr/bin/env python3
-"""Assemble coq/_CoqProject from coq/*/FILES (one path per line, relative to coq/; '#' comments).
-Each property directory owns its FILES list, so concurrent work never edits a shared file.
-Generated files (coq/Gen/*.v, regenerated from /repo by tools/translate_*.py) are listed in the FILES of
-the property that owns the translator."""
-import os, glob
+"""Assemble Coq project files from coq/*/FILES (one path per line, relative to coq/; '#' comments).
+  mkcoqproject.py            -> coq/_CoqProject          (all properties; used by setup.sh)
+  mkcoqproject.py C12        -> coq/_CoqProject.C12      (Common + C12/FILES only; used by ./check C12, so that a broken
+                                                          or half-written file of another property can never break this check)
+Each property directory owns its FILES list and lists everything it needs except Common (including coq/Gen/*.v files it
+generates and files of other properties it imports). Files that do not exist are skipped."""
+import os, sys
 ROOT = os.path.dirname(os.path.dirname(os.path.abspath(__file__)))
 COQ = os.path.join(ROOT, "coq")
-def main():
-    seen = []; 
-    dirs = ["Common"] + sorted(d for d in os.listdir(COQ) if os.path.isdir(os.path.join(COQ, d)) and d not in ("Common",))
-    for d in dirs:
-        f = os.path.join(COQ, d, "FILES")
-        if not os.path.exists(f): continue
+HEAD = "-Q . RV\n-arg -w -arg -notation-overridden,-deprecated-hint-without-locality,-inexact-float,-deprecated-instance-without-locality\n"
+def files_of(d):
+    f = os.path.join(COQ, d, "FILES")
+    out = []
+    if os.path.exists(f):
         for line in open(f):
             line = line.split("#")[0].strip()
-            if line and line not in seen:
-                seen.append(line)
-    head = "-Q . RV\n-arg -w -arg -notation-overridden,-deprecated-hint-without-locality,-inexact-float,-deprecated-instance-without-locality\n"
-    new = head + "\n".join(seen) + "\n"
-    p = os.path.join(COQ, "_CoqProject")
-    if not os.path.exists(p) or open(p).read() != new:
-        open(p, "w").write(new)
-    return seen
+            if line and os.path.exists(os.path.join(COQ, line)):
+                out.append(line)
+    return out
+def write(path, seen):
+    new = HEAD + "\n".join(seen) + "\n"
+    if not os.path.exists(path) or open(path).read() != new:
+        open(path, "w").write(new)
+def main(sub=None):
+    if sub:
+        dirs = ["Common", sub]
+        path = os.path.join(COQ, "_CoqProject." + sub)
+    else:
+        dirs = ["Common"] + sorted(d for d in os.listdir(COQ) if os.path.isdir(os.path.join(COQ, d)) and d != "Common")
+        path = os.path.join(COQ, "_CoqProject")
+    seen = []
+    for d in dirs:
+        for l in files_of(d):
+            if l not in seen:
+                seen.append(l)
+    write(path, seen)
+    return path, seen
 if __name__ == "__main__":
-    print("\n".join(main()))
+    p, s = main(sys.argv[1] if len(sys.argv) > 1 else None)
+    print(p); print("\n".join(s))
